@@ -5,7 +5,7 @@
    not, equivocating), timeouts that were scheduled — i.e. also sequences only a > 1/3 faulty
    coalition can produce.  No assumption is made on who sent what. *)
 From Coq Require Import List ZArith NArith Bool.
-From TM Require Import C02.Model C02.ProofsVoteSet C02.ProofsOrder C02.Exec.
+From TM Require Import C02.Model C02.ProofsVoteSet C02.ProofsHVS C02.ProofsOrder C02.ProofsLock C02.Exec.
 Import ListNotations.
 Open Scope Z_scope.
 
@@ -47,6 +47,42 @@ Theorem C02_maj23_sound :
 Proof. exact maj23_sound. Qed.
 Print Assumptions C02_maj23_sound.
 
+(* Clauses 2 and 3 at run level.  D = the votes delivered during the run, P = the blocks whose
+   complete part sets were delivered.  [Polka E D h r x]: distinct validators holding more than
+   2/3 of the power each have a verified prevote for exactly (h, r, x) in D (address and index
+   checked).  [Released E D h r b r']: for some round r'' with r < r'' <= r' there is a polka
+   for a value whose block hash is not b's (nil included).  The input list is arbitrary, so
+   applying a theorem to a prefix of a run (C02_run_prefix) reads "delivered so far". *)
+
+(* Clause 2: a precommit for a block is signed only with the polka for it in that round among
+   the delivered prevotes and with the block's part set completed. *)
+Theorem C02_precommit_justified :
+  forall (E : env) (height : Z) (lc : option voteset) (ins : list input) (h r : Z) (b : bid),
+    powers_nonneg (e_vals E) ->
+    In (OSignVote PRECOMMIT h r (Some b)) (concat (snd (run E (init_state E height lc) ins))) ->
+    Polka E (votes_of ins) h r (Some b) /\ In (fst b) (blocks_of ins).
+Proof. exact precommit_justified. Qed.
+Print Assumptions C02_precommit_justified.
+
+(* Clause 3: once a precommit for block b was signed in round r, a prevote signed later for a
+   later round r' of that height is for b — or a more recent polka for something else was
+   delivered. *)
+Theorem C02_lock_discipline :
+  forall (E : env) (height : Z) (lc : option voteset) (ins : list input)
+         (o1 : list output) (h r : Z) (b : bid) (o2 : list output) (r' : Z) (x : blockid) (o3 : list output),
+    powers_nonneg (e_vals E) ->
+    concat (snd (run E (init_state E height lc) ins)) =
+      o1 ++ OSignVote PRECOMMIT h r (Some b) :: o2 ++ OSignVote PREVOTE h r' x :: o3 ->
+    r < r' -> bhash x <> Some (fst b) -> Released E (votes_of ins) h r b r'.
+Proof. exact lock_discipline. Qed.
+Print Assumptions C02_lock_discipline.
+
+Theorem C02_run_prefix :
+  forall (E : env) (a : list input) (s : cstate) (b : list input),
+    snd (run E s (a ++ b)) = snd (run E s a) ++ snd (run E (fst (run E s a)) b).
+Proof. exact run_app. Qed.
+Print Assumptions C02_run_prefix.
+
 (* ---- non-vacuity: a concrete 4-validator run in which the node (index 0, proposer of round 0
    is validator 1) receives a proposal and the block, prevotes it, sees the polka, precommits
    it, sees +2/3 precommits and decides. *)
@@ -70,3 +106,31 @@ Example C02_run_nonvacuous :
   keys (concat os) = [(1, 0, 4); (1, 0, 6)] /\
   In (ODecide 1 0 7%N) (concat os) /\ cs_height s' = 2.
 Proof. vm_compute. split; [reflexivity | split; [do 3 right; left; reflexivity | reflexivity]]. Qed.
+
+(* non-vacuity of the lock clause: the node precommits block 7 in round 0, the round times out,
+   a polka for nil is delivered in round 1, and only then does it prevote nil in round 2. *)
+Definition ex_nilvote r i : input :=
+  IVote {| v_type := PREVOTE; v_height := 1; v_round := r; v_bid := None; v_idx := i;
+           v_addr := N.of_nat (Z.to_nat i + 1); v_sig := N.of_nat (Z.to_nat i + 300 + 10 * Z.to_nat r); v_ok := true |} 5%N.
+Definition ex_nilpc r i : input :=
+  IVote {| v_type := PRECOMMIT; v_height := 1; v_round := r; v_bid := None; v_idx := i;
+           v_addr := N.of_nat (Z.to_nat i + 1); v_sig := N.of_nat (Z.to_nat i + 500 + 10 * Z.to_nat r); v_ok := true |} 5%N.
+Definition ex_inputs_lock : list input :=
+  [ ITimeout {| ti_height := 1; ti_round := 0; ti_step := SNewHeight |};
+    IProposal {| pr_height := 1; pr_round := 0; pr_polr := -1; pr_bid := ex_bid; pr_signer := 1; pr_sigvalid := true |};
+    IPart 1 (1%N, 9%N) 0%N (Some {| b_hash := 7%N; b_valid := true |});
+    ex_vote PREVOTE 0; ex_vote PREVOTE 1; ex_vote PREVOTE 2;        (* polka for 7: locks, precommits 7 *)
+    ex_nilpc 0 1; ex_nilpc 0 2; ex_nilpc 0 3;                       (* +2/3 precommit nil *)
+    ITimeout {| ti_height := 1; ti_round := 0; ti_step := SPrecommitWait |};  (* round 1 *)
+    ITimeout {| ti_height := 1; ti_round := 1; ti_step := SPropose |};   (* prevotes the locked block *)
+    ex_nilvote 1 1; ex_nilvote 1 2; ex_nilvote 1 3;                 (* polka for nil in round 1: unlock *)
+    ex_nilpc 1 1; ex_nilpc 1 2; ex_nilpc 1 3;
+    ITimeout {| ti_height := 1; ti_round := 1; ti_step := SPrecommitWait |};  (* round 2 *)
+    ITimeout {| ti_height := 1; ti_round := 2; ti_step := SPropose |} ]. (* prevotes nil *)
+
+Example C02_lock_nonvacuous :
+  let outs := concat (snd (run ex_env (init_state ex_env 1 None) ex_inputs_lock)) in
+  In (OSignVote PRECOMMIT 1 0 (Some ex_bid)) outs /\
+  In (OSignVote PREVOTE 1 1 (Some ex_bid)) outs /\
+  In (OSignVote PREVOTE 1 2 None) outs.
+Proof. vm_compute. repeat split; repeat ((left; reflexivity) || right). Qed.
